@@ -32,6 +32,7 @@ import (
 	"flag"
 	"fmt"
 	"os"
+	"os/exec"
 	"sort"
 	"strconv"
 	"strings"
@@ -73,9 +74,16 @@ const (
 	longCtx = 3_000_000 // only matters when a wake-up is lost
 )
 
-// distinct deadline slots: multiples of 3 ms (the comparator's clock-resolution ties are far below)
-func slot(k int) int { return k * 3000 }
-func far(k int) int  { return 5_000_000 + k*3000 }
+// Distinct deadline slots are multiples of 10 ms.  The queue's comparator evaluates Delay() of its two
+// arguments at two instants, so two deadlines closer than the time that passes between the two reads
+// (normally ~100 ns, but a descheduled thread can make it milliseconds) may be ordered either way:
+// the property says "up to clock-resolution ties".  The spacing is far above any stall seen in practice,
+// the run measures the scheduling jitter (`jit=` on the end line) and the oracle's tie tolerance is
+// max(2 ms, 2*jit): deadlines closer than that are never used as evidence about the order.
+const slotUs = 10_000
+
+func slot(k int) int { return k * slotUs }
+func far(k int) int  { return 5_000_000 + k*slotUs }
 
 func (g *gen) directed(i int) {
 	r := g.r
@@ -84,29 +92,29 @@ func (g *gen) directed(i int) {
 	case 0: // consumer parked on a far element; a sooner one arrives — it must be woken by the enqueue
 		a, b := g.id(), g.id()
 		g.emit("new cap=0",
-			fmt.Sprintf("t1 0 enq %d %d 60000", a, far(0)),
+			fmt.Sprintf("t1 0 enq %d %d 100000", a, far(0)),
 			fmt.Sprintf("t2 %d deq %d", j(500, 2500), longCtx),
-			fmt.Sprintf("t3 %d enq %d %d 60000", j(4000, 7000), b, slot(j(3, 5))),
+			fmt.Sprintf("t3 %d enq %d %d 100000", j(4000, 7000), b, slot(j(1, 3))),
 			"end")
 	case 1: // consumer on an empty queue, then an (expired | soon) element
 		a := g.id()
 		g.emit("new cap=0",
 			fmt.Sprintf("t1 0 deq %d", longCtx),
-			fmt.Sprintf("t2 %d enq %d %d 60000", j(2000, 5000), a, slot(j(-3, 3))),
+			fmt.Sprintf("t2 %d enq %d %d 100000", j(2000, 5000), a, slot(j(-3, 2))),
 			"end")
 	case 2: // bounded: a blocked Enqueue proceeds when a Dequeue frees the slot
 		a, b := g.id(), g.id()
 		g.emit("new cap=1",
-			fmt.Sprintf("t1 0 enq %d %d 60000", a, slot(-2)),
+			fmt.Sprintf("t1 0 enq %d %d 100000", a, slot(-2)),
 			fmt.Sprintf("t2 %d enq %d %d %d", j(1000, 2000), b, slot(-1), longCtx),
-			fmt.Sprintf("t3 %d deq 60000", j(4000, 6000)),
-			fmt.Sprintf("t3 %d deq 60000", j(0, 2000)),
+			fmt.Sprintf("t3 %d deq 150000", j(4000, 6000)),
+			fmt.Sprintf("t3 %d deq 150000", j(0, 2000)),
 			"end")
 	case 3: // cancellation storm on a full queue of far elements, then the capacity probe
 		a, b := g.id(), g.id()
 		g.emit("new cap=2",
-			fmt.Sprintf("t1 0 enq %d %d 60000", a, far(1)),
-			fmt.Sprintf("t1 0 enq %d %d 60000", b, far(0)),
+			fmt.Sprintf("t1 0 enq %d %d 100000", a, far(1)),
+			fmt.Sprintf("t1 0 enq %d %d 100000", b, far(0)),
 			fmt.Sprintf("t2 %d enq %d %d %d", j(500, 1500), g.id(), slot(-1), j(1000, 5000)),
 			fmt.Sprintf("t3 %d enq %d %d %d", j(500, 1500), g.id(), slot(-2), j(1000, 5000)),
 			fmt.Sprintf("t4 %d deq %d", j(500, 1500), j(1000, 5000)),
@@ -116,37 +124,37 @@ func (g *gen) directed(i int) {
 	case 4: // two consumers armed for the same head: the loser must re-check (second element later)
 		a, b := g.id(), g.id()
 		g.emit("new cap=0",
-			fmt.Sprintf("t1 0 enq %d %d 60000", a, slot(2)),
-			fmt.Sprintf("t1 0 enq %d %d 60000", b, slot(5)),
-			fmt.Sprintf("t2 %d deq 80000", j(0, 1500)),
-			fmt.Sprintf("t3 %d deq 80000", j(0, 1500)),
+			fmt.Sprintf("t1 0 enq %d %d 100000", a, slot(1)),
+			fmt.Sprintf("t1 0 enq %d %d 100000", b, slot(3)),
+			fmt.Sprintf("t2 %d deq 150000", j(0, 1500)),
+			fmt.Sprintf("t3 %d deq 150000", j(0, 1500)),
 			"end")
 	case 5: // stale tick: the timer fires at about the instant a new element is broadcast
 		a, b, c := g.id(), g.id(), g.id()
 		g.emit("new cap=0",
-			fmt.Sprintf("t1 0 enq %d %d 60000", a, slot(2)),
-			fmt.Sprintf("t1 0 enq %d %d 60000", b, slot(6)),
-			fmt.Sprintf("t2 %d deq 80000", j(0, 1000)),
-			fmt.Sprintf("t3 %d deq 80000", j(0, 1000)),
-			fmt.Sprintf("t4 %d enq %d %d 60000", 6000+j(-300, 300), c, far(0)),
+			fmt.Sprintf("t1 0 enq %d %d 100000", a, slot(1)),
+			fmt.Sprintf("t1 0 enq %d %d 100000", b, slot(3)),
+			fmt.Sprintf("t2 %d deq 150000", j(0, 1000)),
+			fmt.Sprintf("t3 %d deq 150000", j(0, 1000)),
+			fmt.Sprintf("t4 %d enq %d %d 100000", slot(1)+j(-300, 300), c, far(0)),
 			"end")
 	case 6: // enqueue order is the reverse of the expiry order; one consumer takes them all
 		ids := []int{g.id(), g.id(), g.id(), g.id()}
 		ls := []string{"new cap=0"}
 		for k, id := range ids {
-			ls = append(ls, fmt.Sprintf("t1 0 enq %d %d 60000", id, slot(4-k)))
+			ls = append(ls, fmt.Sprintf("t1 0 enq %d %d 100000", id, slot(4-k)))
 		}
 		for range ids {
-			ls = append(ls, "t2 0 deq 80000")
+			ls = append(ls, "t2 0 deq 150000")
 		}
 		g.emit(append(ls, "end")...)
 	case 7: // a sooner element arrives while the consumer is parked on a soon one
 		a, b := g.id(), g.id()
 		g.emit("new cap=0",
-			fmt.Sprintf("t1 0 enq %d %d 60000", a, slot(6)),
-			fmt.Sprintf("t2 %d deq 80000", j(200, 1500)),
-			fmt.Sprintf("t3 %d enq %d %d 60000", j(2500, 4000), b, slot(2)),
-			fmt.Sprintf("t2 0 deq 80000"),
+			fmt.Sprintf("t1 0 enq %d %d 100000", a, slot(4)),
+			fmt.Sprintf("t2 %d deq 150000", j(200, 1500)),
+			fmt.Sprintf("t3 %d enq %d %d 100000", j(2500, 4000), b, slot(2)),
+			fmt.Sprintf("t2 0 deq 150000"),
 			"end")
 	case 8: // bounded, several blocked producers, one consumer draining; a cancelled producer in between
 		ls := []string{"new cap=1"}
@@ -155,7 +163,7 @@ func (g *gen) directed(i int) {
 		}
 		ls = append(ls, fmt.Sprintf("t4 %d enq %d %d %d", j(0, 800), g.id(), slot(-5), j(500, 2500)))
 		for k := 0; k < 3; k++ {
-			ls = append(ls, fmt.Sprintf("t5 %d deq 80000", j(1500, 3000)))
+			ls = append(ls, fmt.Sprintf("t5 %d deq 150000", j(1500, 3000)))
 		}
 		g.emit(append(ls, "end")...)
 	}
@@ -172,7 +180,7 @@ func (g *gen) random(focus string) {
 	used := map[int]bool{}
 	pickSlot := func() int {
 		for tries := 0; ; tries++ {
-			k := r.Range(-8, 7)
+			k := r.Range(-8, 5)
 			if r.Chance(12) {
 				k = 1000 + r.Range(0, 5) // far
 			}
@@ -193,7 +201,7 @@ func (g *gen) random(focus string) {
 		case p < 30 || (focus == "wake" && p < 50):
 			return r.Range(500, 6000)
 		default:
-			return r.Range(40000, 70000)
+			return r.Range(90000, 130000)
 		}
 	}
 	g.emit(fmt.Sprintf("new cap=%d", capc))
@@ -229,8 +237,8 @@ func generate(tier, focus string, out *vlib.Out) {
 		nd, nr = nd*6, nr*8
 	}
 	// NewDelayQueue(c) with c <= 0 is the unbounded queue
-	g.emit("new cap=-1", fmt.Sprintf("t1 0 enq %d %d 60000", g.id(), slot(-1)), fmt.Sprintf("t1 0 enq %d %d 60000", g.id(), slot(-2)),
-		"t2 1000 deq 60000", "t2 0 deq 60000", "t2 0 deq 2000", "end")
+	g.emit("new cap=-1", fmt.Sprintf("t1 0 enq %d %d 100000", g.id(), slot(-1)), fmt.Sprintf("t1 0 enq %d %d 100000", g.id(), slot(-2)),
+		"t2 1000 deq 100000", "t2 0 deq 100000", "t2 0 deq 2000", "end")
 	for i := 0; i < nd; i++ {
 		g.directed(i)
 	}
@@ -311,8 +319,51 @@ func errTok(err error) string {
 	return "err:other"
 }
 
-// every call carries a context of at most 3 s; a scenario normally lasts well under 100 ms
-const watchdog = 10 * time.Second
+// every call carries a context of at most 3 s; a scenario normally lasts well under 200 ms
+const watchdog = 12 * time.Second
+
+// probeCtxUs bounds the probe calls that MUST succeed (a free slot exists / an expired element is
+// present); they return at once, the bound only matters on a broken tree.  Never use a short context
+// for a call whose success is asserted: under load the context can expire before the call even starts.
+const probeCtxUs = 4_000_000
+
+// Scheduling jitter: a monitor goroutine sleeps 500 µs in a loop and records by how much it overslept;
+// every worker records the oversleep of its own pre-call sleeps.  The maximum seen during a scenario is
+// reported as `jit=` (µs) on the end line; the oracle widens its tie tolerance and wake-up bound by it.
+type jitter struct {
+	mu  sync.Mutex
+	reg map[*atomic.Int64]struct{}
+}
+
+var jit = jitter{reg: map[*atomic.Int64]struct{}{}}
+
+func noteJit(p *atomic.Int64, over time.Duration) {
+	v := int64(over / time.Microsecond)
+	for {
+		old := p.Load()
+		if v <= old || p.CompareAndSwap(old, v) {
+			return
+		}
+	}
+}
+
+func (j *jitter) start() {
+	go func() {
+		const nap = 500 * time.Microsecond
+		for {
+			t := time.Now()
+			time.Sleep(nap)
+			over := time.Since(t) - nap
+			j.mu.Lock()
+			for p := range j.reg {
+				noteJit(p, over)
+			}
+			j.mu.Unlock()
+		}
+	}()
+}
+func (j *jitter) add(p *atomic.Int64) { j.mu.Lock(); j.reg[p] = struct{}{}; j.mu.Unlock() }
+func (j *jitter) del(p *atomic.Int64) { j.mu.Lock(); delete(j.reg, p); j.mu.Unlock() }
 
 // set once a scenario hung: the remaining scenarios are skipped (the hang is the finding; leaked
 // goroutines of a hung scenario would only slow the others down)
@@ -340,6 +391,9 @@ func runCase(lines []string) []string {
 		return []string{fmt.Sprintf("%s => %s", lines[0], p)}
 	}
 	out := []string{fmt.Sprintf("%s => ok cap=%d disc=%s", lines[0], q.VerifCap(), timerDisc())}
+	var jmax atomic.Int64
+	jit.add(&jmax)
+	defer jit.del(&jmax)
 	t0 := time.Now()
 	us := func(t time.Time) int64 { return int64(t.Sub(t0)/time.Microsecond) + epochShiftUs }
 	var seq atomic.Int64
@@ -355,7 +409,9 @@ func runCase(lines []string) []string {
 			defer wg.Done()
 			for _, c := range cs {
 				if c.sleepUs > 0 {
-					time.Sleep(time.Duration(c.sleepUs) * time.Microsecond)
+					ts, d := time.Now(), time.Duration(c.sleepUs)*time.Microsecond
+					time.Sleep(d)
+					noteJit(&jmax, time.Since(ts)-d)
 				}
 				ctx, cancel := mkCtx(c.ctxUs)
 				var res string
@@ -454,32 +510,43 @@ func runCase(lines []string) []string {
 			s = "finallen=na" // black-box stubs: the length is not observable
 		}
 		if capc > 0 {
-			// fill the free slots (white-box: exactly cap-len of them; black-box: until one blocks)
+			// Capacity-conservation probe.  Calls whose success is asserted get the generous probeCtxUs
+			// (they return at once on a healthy tree); only the call that is EXPECTED to block gets a
+			// short context.  White-box: fill exactly cap-len slots.  Black-box (stub hooks): fill until
+			// an Enqueue blocks, confirming the "blocked" verdict with a second, longer attempt.
 			free := capc - finallen
 			if free < 0 {
 				free = 0
 			}
-			tries, ctxUs := free, 2_000_000
-			if finallen < 0 {
-				tries, ctxUs = capc, 20_000
-			}
 			fill := 0
-			for i := 0; i < tries; i++ {
+			put := func(ctxUs int) bool {
 				ctx, cancel := mkCtx(ctxUs)
-				e := &elem{id: 900000 + fill, deadline: t0.Add(-50 * time.Second)}
-				err := q.Enqueue(ctx, e)
-				cancel()
-				if err != nil {
-					break
+				defer cancel()
+				return q.Enqueue(ctx, &elem{id: 900000 + fill, deadline: t0.Add(-50 * time.Second)}) == nil
+			}
+			if finallen >= 0 {
+				for i := 0; i < free; i++ {
+					if !put(probeCtxUs) {
+						break
+					}
+					fill++
 				}
-				fill++
+			} else {
+				for i := 0; i < capc; i++ {
+					if !put(100_000) && !put(1_000_000) {
+						break
+					}
+					fill++
+				}
 			}
 			ctx, cancel := mkCtx(3000)
 			extra := errTok(q.Enqueue(ctx, &elem{id: 999999, deadline: t0.Add(-60 * time.Second)}))
 			cancel()
+			// the `fill` probe elements expired long ago and are the earliest of all: exactly that many
+			// Dequeues must succeed (no trailing Dequeue that would have to time out)
 			var drained []int
-			for i := 0; i < capc+2; i++ {
-				ctx, cancel := mkCtx(3000)
+			for i := 0; i < fill; i++ {
+				ctx, cancel := mkCtx(probeCtxUs)
 				e, err := q.Dequeue(ctx)
 				cancel()
 				if err != nil || e == nil {
@@ -492,6 +559,7 @@ func runCase(lines []string) []string {
 			}
 			s += fmt.Sprintf(" fill=%d extra=%s drained=%s tend=%d", fill, extra, vlib.Ints(drained), us(time.Now()))
 		}
+		s += fmt.Sprintf(" jit=%d", jmax.Load())
 		endc <- s
 	}()
 	select {
@@ -514,6 +582,9 @@ type stats struct {
 	Lines    int            `json:"lines"`
 	Distinct int            `json:"distinct_state_op_pairs"`
 	Godebug  string         `json:"godebug"`
+	Recheck  int            `json:"cases_rerun_to_confirm_a_timing_sensitive_alarm"`
+	Refuted  int            `json:"timing_sensitive_alarms_not_reproduced"`
+	MaxJit   int64          `json:"max_scheduling_jitter_us"`
 }
 
 func splitCases(lines []string) [][]string {
@@ -542,23 +613,137 @@ func field(obs, key string) (int64, bool) {
 	return 0, false
 }
 
+// driverPath returns the Lean acceptor named by VERIF_DRIVER (a list of candidate paths), or "".
+func driverPath() string {
+	for _, p := range strings.Split(os.Getenv("VERIF_DRIVER"), string(os.PathListSeparator)) {
+		if p != "" {
+			if _, err := os.Stat(p); err == nil {
+				return p
+			}
+		}
+	}
+	return ""
+}
+
+// verdicts runs the acceptor on trace lines; nil if it cannot be run.
+func verdicts(drv string, trace []string) []string {
+	cmd := exec.Command(drv, "model", "delayq")
+	cmd.Stdin = strings.NewReader(strings.Join(trace, "\n") + "\n")
+	b, _ := cmd.Output() // exit status 3 = some line rejected
+	v := strings.Split(strings.TrimRight(string(b), "\n"), "\n")
+	if len(v) != len(trace) {
+		return nil
+	}
+	return v
+}
+
+const timingMark = "timing-sensitive"
+
+// classify: 0 = accepted, 1 = rejected for a timing-sensitive reason only, 2 = rejected with hard evidence
+func classify(v []string) int {
+	c := 0
+	for _, l := range v {
+		if strings.HasPrefix(l, "ok") {
+			continue
+		}
+		if strings.Contains(l, timingMark) {
+			if c == 0 {
+				c = 1
+			}
+		} else {
+			c = 2
+		}
+	}
+	return c
+}
+
+// confirm: an observation that rests on a timing assumption (a wake-up bound, the watchdog, the order of
+// two deadlines the comparator saw at two instants, the model's exact-minimum replay) is reported only
+// if it is reproduced by two further executions of the same scenario; otherwise the scenario is
+// inconclusive and the trace of an accepted execution is kept.  Observations that need no timing
+// assumption (early release, duplicates, losses, capacity, effects of failed calls) are never retried.
+// Confirmation stops at the first confirmed (or hard) rejection: the run is failing anyway.
+func confirm(cases [][]string, results [][]string, st *stats) (refutedHang bool) {
+	drv := driverPath()
+	if drv == "" {
+		return false
+	}
+	var all []string
+	start := make([]int, len(results))
+	for i, tr := range results {
+		start[i] = len(all)
+		all = append(all, tr...)
+	}
+	v := verdicts(drv, all)
+	if v == nil {
+		return false
+	}
+	for i, tr := range results {
+		if len(tr) == 0 {
+			continue
+		}
+		switch classify(v[start[i] : start[i]+len(tr)]) {
+		case 0:
+			continue
+		case 2:
+			return false
+		}
+		hung := strings.HasSuffix(tr[len(tr)-1], "=> hang")
+		confirmed := true
+		for attempt := 0; attempt < 2; attempt++ {
+			st.Recheck++
+			aborted.Store(false)
+			tr2 := runCase(cases[i])
+			v2 := verdicts(drv, tr2)
+			if v2 == nil {
+				break
+			}
+			k := classify(v2)
+			if k == 0 || k == 2 {
+				results[i] = tr2
+				confirmed = k == 2
+				break
+			}
+		}
+		if confirmed {
+			return false
+		}
+		st.Refuted++
+		if hung {
+			refutedHang = true
+		}
+	}
+	return refutedHang
+}
+
 func run(lines []string, out *vlib.Out, st *stats, par int) {
+	jit.start()
 	cases := splitCases(lines)
 	results := make([][]string, len(cases))
-	sem := make(chan struct{}, par)
-	var wg sync.WaitGroup
-	for i := range cases {
-		wg.Add(1)
-		sem <- struct{}{}
-		go func(i int) {
-			defer wg.Done()
-			if !aborted.Load() {
-				results[i] = runCase(cases[i])
+	for pass := 0; pass < 3; pass++ {
+		sem := make(chan struct{}, par)
+		var wg sync.WaitGroup
+		for i := range cases {
+			if results[i] != nil {
+				continue
 			}
-			<-sem
-		}(i)
+			wg.Add(1)
+			sem <- struct{}{}
+			go func(i int) {
+				defer wg.Done()
+				if !aborted.Load() {
+					results[i] = runCase(cases[i])
+				}
+				<-sem
+			}(i)
+		}
+		wg.Wait()
+		// a refuted hang had made the run skip the remaining scenarios: execute them now
+		if !confirm(cases, results, st) {
+			break
+		}
+		aborted.Store(false)
 	}
-	wg.Wait()
 	seen := map[string]struct{}{}
 	for i, tr := range results {
 		st.Cases++
@@ -569,6 +754,11 @@ func run(lines []string, out *vlib.Out, st *stats, par int) {
 			st.Lines++
 			parts := strings.SplitN(l, " => ", 2)
 			w := strings.Fields(parts[0])
+			if len(parts) == 2 {
+				if j, ok := field(parts[1], "jit"); ok && j > st.MaxJit {
+					st.MaxJit = j
+				}
+			}
 			if len(parts) < 2 || len(w) < 3 || !strings.HasPrefix(w[0], "t") {
 				continue
 			}
@@ -608,7 +798,7 @@ func main() {
 	opsF := flag.String("ops", "", "ops file (run mode)")
 	outF := flag.String("out", "", "output file")
 	statsF := flag.String("stats", "", "stats json (run mode)")
-	par := flag.Int("par", 4, "scenarios executed concurrently")
+	par := flag.Int("par", 8, "scenarios executed concurrently")
 	flag.Parse()
 	out := vlib.Create(*outF)
 	defer out.Close()
